@@ -628,6 +628,14 @@ func TestC10Matrix(t *testing.T) {
 var keyKinds = []string{"1", "0", "-1", `"s"`, `""`, "null", "true", "[1]", `{"a":1}`, "ERR"}
 
 func TestC10ByExprKeys(t *testing.T) {
+	// also run under C16 (VERIF_PROP): whatever comes back without an error must be JSON data
+	byProp := envStr("VERIF_PROP", "C10")
+	byKind := "diff"
+	if byProp == "C16" {
+		byKind = "jsondata"
+	} else {
+		byProp = "C10"
+	}
 	n := 0
 	for _, fnv := range []string{"sort_by", "max_by", "min_by", "sort_by:sort_by([@, @], &i)[0].k", "sort_by:max_by([@], &i).k", "max_by:map(&k, [@])[0]", "min_by:(sort(`[2,1]`) && k)", "sort_by:min_by(sort_by([@, @], &i), &i).k"} {
 		fn, keyExpr := fnv, "k"
@@ -654,7 +662,7 @@ func TestC10ByExprKeys(t *testing.T) {
 					// the key expression fails (abs of a string) exactly on the marked elements
 					key = "(e && abs(k)) || " + keyExpr
 				}
-				run(t, Case{Property: "C10", Kind: "diff", Expr: fn + "(@, &" + key + ")", Doc: doc})
+				run(t, Case{Property: byProp, Kind: byKind, Expr: fn + "(@, &" + key + ")", Doc: doc})
 				n++
 				p := length - 1
 				for p >= 0 {
@@ -671,9 +679,9 @@ func TestC10ByExprKeys(t *testing.T) {
 			}
 		}
 	}
-	st := statsFor("C10")
+	st := statsFor(byProp)
 	st.mu.Lock()
-	st.Exhaustive["C10.byexpr-keys"] = fmt.Sprintf("sort_by/max_by/min_by x arrays of length 0..3 x every combination of key kinds %v: %d calls", keyKinds, n)
+	st.Exhaustive[byProp+".byexpr-keys"] = fmt.Sprintf("sort_by/max_by/min_by x arrays of length 0..3 x every combination of key kinds %v: %d calls", keyKinds, n)
 	st.mu.Unlock()
 }
 
